@@ -24,18 +24,23 @@ def config(draw, retry_choices=(True,), rr_choices=(True,)):
     nw = draw(st.integers(1, 3))
     n = draw(st.integers(0, 6))
     inputs = list(range(n))
+    retry = draw(st.sampled_from(list(retry_choices)))
+    if retry and n >= 2 and draw(st.integers(0, 3)) == 0:
+        # equal items are legal input and each needs its own result (retry on only: the retry-off oracle speaks about individual inputs)
+        inputs = draw(st.lists(st.sampled_from([0, 1, 2]), min_size=2, max_size=6))
+        n = len(inputs)
     extra = draw(st.integers(0, 2))
     kills = draw(st.sampled_from([0, 1, 1, 2, 3]))
     poison = {}
     if n and draw(st.integers(0, 3)) == 0:
-        for x in draw(st.lists(st.sampled_from(inputs), max_size=2, unique=True)):
+        for x in draw(st.lists(st.sampled_from(sorted(set(inputs))), max_size=2, unique=True)):
             who = draw(st.sampled_from(['*'] + [str(i) for i in range(nw)]))
             poison.setdefault(who, [])
             if x not in poison[who]:
                 poison[who].append(x)
     refuse = []
     if n and draw(st.integers(0, 3)) == 0:
-        cand = [(w, x) for w in range(nw) for x in inputs]
+        cand = [(w, x) for w in range(nw) for x in sorted(set(inputs))]
         picked = draw(st.lists(st.sampled_from(cand), max_size=5, unique=True))
         refuse = [list(p) for p in picked]
         # by construction: every input keeps at least one worker that accepts it and is not poisoned by it
@@ -46,9 +51,13 @@ def config(draw, retry_choices=(True,), rr_choices=(True,)):
                 if cands:
                     w = cands[0]
                     refuse = [p for p in refuse if p != [w, x]]
+    flaky = []
+    if n and draw(st.integers(0, 4)) == 0:
+        # transient enqueue failures: the first attempt to hand x to worker w raises, the worker stays alive
+        flaky = [list(p) for p in draw(st.lists(st.sampled_from([(w, x) for w in range(nw) for x in sorted(set(inputs))]), min_size=1, max_size=3, unique=True))]
     return {
         'workers': nw, 'inputs': inputs, 'extra': extra, 'kills': kills, 'kill_marker': draw(st.booleans()),
-        'poison': poison, 'refuse': refuse, 'retry': draw(st.sampled_from(list(retry_choices))),
+        'poison': poison, 'refuse': refuse, 'flaky': flaky, 'linger': draw(st.integers(0, 3)) == 0, 'retry': retry,
         'return_results': draw(st.sampled_from(list(rr_choices))),
         'source': draw(st.sampled_from(['iter', 'iter', 'callable'])),
         'idsalt': draw(st.integers(0, 5)),
@@ -75,6 +84,10 @@ def classify(case, sim, res, out):
         out.label('death')
     if not [w for w in sim.workers if w.alive]:
         out.label('all_dead')
+    if len(set(case['inputs'])) < len(case['inputs']):
+        out.label('equal_inputs')
+        if deaths:
+            out.label('equal_inputs_and_death')
     if case.get('refuse'):
         out.label('refusing_enqueue_fn')
         if sim.refused:
@@ -92,7 +105,7 @@ def classify(case, sim, res, out):
     out.label('retry_on' if case.get('retry', True) else 'retry_off')
     if not case.get('return_results', True):
         out.label('return_results_off')
-    out.nontrivial = bool(deaths) or bool(sim.refused) or (case.get('extra', 0) >= 1 and case['workers'] >= 2)
+    out.nontrivial = bool(deaths) or bool(sim.refused) or (case.get('extra', 0) >= 1 and case['workers'] >= 2) or 'transient_enqueue_failure' in sim.flags
     cfg = {k: v for k, v in case.items() if k != 'tape'}
     out.key = {'cfg': cfg, 'trace': [list(map(str, e)) for e in sim.trace]}
     out.obs = {'end': res['kind'], 'events': len(sim.trace), 'trace_head': [' '.join(map(str, e)) for e in sim.trace[:14]],
@@ -102,8 +115,9 @@ def classify(case, sim, res, out):
 
 
 def _multiset_check(values, inputs, out, where):
-    """values must be f(x) for x in inputs with multiplicity <= 1; returns Counter of x."""
+    """values must be f(x) for x in inputs, each at most as often as x occurs in inputs; returns Counter of x."""
     exp = {poolsim.f(x): x for x in inputs}
+    allowed = Counter(inputs)
     cnt = Counter()
     for v in values:
         if v not in exp:
@@ -111,9 +125,13 @@ def _multiset_check(values, inputs, out, where):
         else:
             cnt[exp[v]] += 1
     for x, c in cnt.items():
-        if c > 1:
-            out.viol('duplicate', where, f'result of input {x} appears {c} times')
+        if c > allowed[x]:
+            out.viol('duplicate', where, f'result of input {x} appears {c} times, the input {allowed[x]} time(s)')
     return cnt
+
+
+def _missing(inputs, cnt):
+    return sorted((Counter(inputs) - cnt).elements())
 
 
 def judge_c07(case, sim, res, alive, out):
@@ -135,7 +153,7 @@ def judge_c07(case, sim, res, alive, out):
                 out.viol('returned_none', 'return', 'Pool.run returned None with return_results=True')
                 return
         cnt = _multiset_check(vals, case['inputs'], out, 'return')
-        missing = [x for x in case['inputs'] if cnt[x] == 0]
+        missing = _missing(case['inputs'], cnt)
         if missing and case.get('retry', True):
             out.viol('missing', 'return', f'normal return without results for inputs {missing}')
 
@@ -148,8 +166,8 @@ def judge_c08(case, sim, res, alive, out):
     if kind == 'poolerror':
         if alive:
             # a live worker exists.  Only a violation if some live worker would have taken every unfinished input.
-            done = Counter(delivered)
-            remaining = [x for x in case['inputs'] if done[poolsim.f(x)] == 0]
+            inv = {poolsim.f(x): x for x in case['inputs']}
+            remaining = _missing(case['inputs'], Counter(inv[v] for v in delivered if v in inv))
             refuse = set(map(tuple, case.get('refuse', [])))
             willing = [w for w in alive if all((w, x) not in refuse for x in remaining)]
             if willing:
@@ -226,6 +244,12 @@ def simplify(case):
     if case.get('poison'):
         c = dict(case); c['poison'] = {}
         yield c
+    if case.get('flaky'):
+        c = dict(case); c['flaky'] = case['flaky'][:-1]
+        yield c
+    if case.get('linger'):
+        c = dict(case); c['linger'] = False
+        yield c
     if case.get('source') == 'callable':
         c = dict(case); c['source'] = 'iter'
         yield c
@@ -282,7 +306,7 @@ def history_config(draw):
     if nruns == 0:
         steps.append(['run', [101, 102], 0, 1])
     return {'workers': nw, 'history': steps, 'kill_marker': draw(st.booleans()), 'retry': True, 'idsalt': draw(st.integers(0, 5)),
-            'tape': draw(_tape_strategy())}
+            'linger': draw(st.booleans()), 'tape': draw(_tape_strategy())}
 
 
 def run_history(case):
@@ -294,6 +318,12 @@ def run_history(case):
         for step in case['history']:
             what = step[0]
             alive_now = [w for w in sim.workers if w.alive]
+            lingering_at_start = [w for w in sim.workers if w.lingering]
+            if what != 'run':
+                for w in lingering_at_start:       # by the time anything else is done with the pool the dead workers have really exited
+                    w.reap()
+            elif lingering_at_start:
+                out.label('run_starts_with_dead_worker_still_winding_down')
             if what == 'run':
                 inputs, extra, kills = step[1], step[2], step[3]
                 if not alive_now:
@@ -307,13 +337,15 @@ def run_history(case):
                 pre_dead_known = set(known_dead)
                 trace_start = len(sim.trace)
                 res = sim.run(inputs, extra=extra)
+                for w in lingering_at_start:
+                    w.reap()
                 seg = sim.trace[trace_start:]
                 kind = res['kind']
                 runs.append(kind)
                 site = 'run#%d' % len(runs)
                 # enqueue attempts on workers whose death the pool already handled in an earlier run
                 for ev in seg:
-                    if ev[0] in ('enqueued', 'enqueue_raised'):
+                    if ev[0] in ('enqueued', 'enqueue_raised', 'enqueued_to_lingering'):
                         w = sim.workers[ev[1]]
                         if ids_before[w.index] in pre_dead_known:
                             out.viol('work_handed_to_known_dead_worker', site, f'worker {w.index} died in an earlier run (the pool was told) and was still offered {ev[2]}')
@@ -325,7 +357,7 @@ def run_history(case):
                 elif kind == 'return':
                     vals = res['value'] if res['value'] is not None else []
                     cnt = _multiset_check(vals, inputs, out, site)
-                    missing = [x for x in inputs if cnt[x] == 0]
+                    missing = _missing(inputs, cnt)
                     if missing:
                         out.viol('missing', site, f'run returned normally without results for {missing} (results {vals})')
                     # every worker that was alive at entry and stayed alive gets work when there is enough of it
@@ -348,7 +380,7 @@ def run_history(case):
             elif what == 'kill':
                 if alive_now:
                     w = alive_now[step[1] % len(alive_now)]
-                    w._die(marker=case.get('kill_marker', False), why='killed')
+                    w._die(marker=case.get('kill_marker', False), why='killed', linger=False)
                     out.label('kill_between_runs')
             elif what == 'restart':
                 n_before = len(sim.pool.workers)
@@ -386,6 +418,8 @@ def simplify_history(case):
         yield dict(case, tape=t[:i] + t[i + 1:])
     if case['workers'] > 1:
         yield dict(case, workers=case['workers'] - 1)
+    if case.get('linger'):
+        yield dict(case, linger=False)
     for i, s_ in enumerate(h):
         if s_[0] == 'run' and len(s_[1]) > 1:
             yield dict(case, history=h[:i] + [['run', s_[1][:-1], s_[2], s_[3]]] + h[i + 1:])
